@@ -110,13 +110,17 @@ Definition mstate_eqb (a b : mstate) : bool :=
 Inductive dfile :=
 | DTemp                      (* os.CreateTemp(blobs, "sha256-") of NewLayer *)
 | DPartial (h : N)           (* sha256-<h>-partial *)
-| DPartRec (h : N) (i : N).  (* sha256-<h>-partial-<i> *)
+| DPartRec (h : N) (i : N)   (* sha256-<h>-partial-<i> *)
+| DColon (h c : N)           (* sha256:<h> holding content c: a blob file of an old version (before fixBlobs) *)
+| DColonPartial (h : N).     (* sha256:<h>-partial of an old version *)
 
 Definition dfile_eqb (a b : dfile) : bool :=
   match a, b with
   | DTemp, DTemp => true
   | DPartial h, DPartial h' => h =? h'
   | DPartRec h i, DPartRec h' i' => (h =? h') && (i =? i')
+  | DColon h c, DColon h' c' => (h =? h') && (c =? c')
+  | DColonPartial h, DColonPartial h' => h =? h'
   | _, _ => false
   end.
 
@@ -133,6 +137,8 @@ Definition add_debris (d : dfile) (l : list dfile) : list dfile :=
   | DTemp => d :: l
   | _ => if existsb (dfile_eqb d) l then l else d :: l
   end.
+
+Definition remove_all (d : dfile) (l : list dfile) : list dfile := filter (fun x => negb (dfile_eqb d x)) l.
 
 (** ** The store *)
 Record store := MkStore {
@@ -178,7 +184,9 @@ Inductive effect :=
 | ERmBlob (h : N)                   (* unlink(blobs/sha256-h) *)
 | ETruncMan (n : name)              (* open(manifest, O_CREAT|O_TRUNC): empty file, hence unreadable *)
 | EWriteMan (n : name) (m : mstate) (* write(manifest bytes) *)
-| ERmMan (n : name).                (* unlink(manifest) *)
+| ERmMan (n : name)                 (* unlink(manifest) *)
+| EFixBlob (h c : N)                (* fixBlobs: rename(blobs/sha256:h, blobs/sha256-h) *)
+| EFixPartial (h : N).              (* fixBlobs: rename(blobs/sha256:h-partial, blobs/sha256-h-partial) *)
 
 Definition apply_effect (s : store) (e : effect) : store :=
   match e with
@@ -190,9 +198,20 @@ Definition apply_effect (s : store) (e : effect) : store :=
   | ETruncMan n => MkStore (aset name_eqb n Unreadable (mans s)) (blobs s) (debris s)
   | EWriteMan n m => MkStore (aset name_eqb n m (mans s)) (blobs s) (debris s)
   | ERmMan n => MkStore (adel name_eqb n (mans s)) (blobs s) (debris s)
+  | EFixBlob h c => MkStore (mans s) (aset N.eqb h c (blobs s)) (remove_all (DColon h c) (debris s))
+  | EFixPartial h => MkStore (mans s) (blobs s) (add_debris (DPartial h) (remove_all (DColonPartial h) (debris s)))
   end.
 
 Definition apply_list (s : store) (es : list effect) : store := fold_left apply_effect es s.
+
+(** a store as an older version left it (test scaffolding of the correspondence check, not an API operation): the
+    blob files [hs] carry the old ':' spelling, and there are old partial downloads [ps] *)
+Definition legacy_move (s : store) (hs ps : list N) : store :=
+  let s1 := fold_left (fun s h => match bget h s with
+                                  | Some c => MkStore (mans s) (adel N.eqb h (blobs s)) (add_debris (DColon h c) (debris s))
+                                  | None => s
+                                  end) hs s in
+  fold_left (fun s p => MkStore (mans s) (blobs s) (add_debris (DColonPartial p) (debris s))) ps s1.
 
 (** a run: the store reached so far and the effects emitted so far *)
 Record run := MkRun { rs : store; rt : list effect }.
